@@ -262,7 +262,7 @@ class LocalAnomalyScore(BaseLocalAnomalyScore):
             score is univariate. In this case, each column represents the univariate
             anomaly score for the corresponding input data column.
         """
-        X = as_2d_array(self._X)
+        X = as_2d_array(self._X, dtype=np.float64)
 
         inner_intervals = cuts[:, 1:3]
         outer_intervals = cuts[:, [0, 3]]
